@@ -62,6 +62,7 @@ type Monitors struct {
 	activeSet     bool
 	switchRaw     string
 	maintRaw      string
+	diskHist      map[string][]lagSample   // ground truth of disk usage per host (lag = percent, ok = measurable)
 	recoverySince map[string]time.Duration // when the present mark of a host appeared
 	deregAt       map[string]time.Duration // hosts removed from ha_nodes and not added back: when
 	recovery      map[string]bool
@@ -406,6 +407,14 @@ func (m *Monitors) touch(src string, sv *Server) {
 }
 
 func (m *Monitors) onDaemonStart(d *Daemon) {}
+
+// onDisk: ground truth of a host's disk usage changed (pct < 0: cannot be measured)
+func (m *Monitors) onDisk(host string, pct int) {
+	if m.diskHist == nil {
+		m.diskHist = map[string][]lagSample{}
+	}
+	m.diskHist[host] = append(m.diskHist[host], lagSample{t: m.s.now(), lag: float64(pct), ok: pct >= 0})
+}
 
 type daemonGoneOracle interface{ onDaemonGone(inc string) }
 
